@@ -2825,7 +2825,9 @@ class VM:
 
         # For named function expressions, bind the function name to itself
         # This allows recursive calls like: var f = function fact(n) { return fact(n-1); }
-        if compiled.name and compiled.name in compiled.locals:
+        # (not when the body has a parameter, var or function of that name:
+        # that binding hides the function's own name)
+        if compiled.binds_own_name and compiled.name in compiled.locals:
             name_slot = compiled.locals.index(compiled.name)
             if name_slot >= len(compiled.params) + 1:  # After params and arguments
                 locals_list[name_slot] = func
